@@ -1,7 +1,8 @@
 SPECIFICATION Spec
 CONSTANTS
-  Impl = "asis"
   NTexts = 6
 INVARIANT Holds
 INVARIANT FunctionAgrees
+INVARIANT Bites
+POSTCONDITION ControlBites
 CHECK_DEADLOCK FALSE
